@@ -3,7 +3,7 @@ CONSTANTS
   MaxNodes = 3
   WriteEps = {"msgpack", "lp_v1", "lp_v2", "lp_simple", "tle"}
   QueryEps = {"query", "query_msgpack", "estimate", "arrow"}
-  NoPrologue = {"arrow"}
+  NoPrologue = {}
   Emit = TRUE
 INVARIANTS TypeOK EmitInv
 CHECK_DEADLOCK FALSE
